@@ -2259,3 +2259,15 @@ package sod
 //@ func (*Async).UnmarshalJSON
 //@ serves C19
 //@ requires a != nil
+
+// ---- temporary files of the write-then-rename protocol (C05) ----------------------------------------
+// A crash between the write of the temporary file and its rename leaves the temporary file behind. Its name
+// starts with a dot, so the part before the first dot is empty: uuidsFromDir (Control, Repair, load) never
+// takes it for a stored object.
+//@ func tmpPath
+//@ serves C05 C18
+//@ assume [uuid-shape] !uuidShaped("")
+//@ ensures [C05 C18 tmp.name] result == dirOf(path) + "/" + ".tmp-" + baseOf(path)
+//@ ensures [C05 tmp.not-an-object] !uuidShaped(prefixOf(".tmp-" + baseOf(path)))
+//@ modifies nothing
+//@ allocates Elem[interface{}], Elem[string]
